@@ -68,7 +68,8 @@ def shard_main(argv):
     probes.coverage_start(repo_path())
     if hasattr(oracle, "setup"):
         oracle.setup(ctx)
-    monitor.run_cases(oracle, ctx, range(lo, hi))
+    known = {f["mechanism"] for f in load_findings() if f["property"] == prop and f.get("status") == "open"}
+    monitor.run_cases(oracle, ctx, range(lo, hi), not_counted=known)  # open findings must not cut the exploration short
     if hasattr(oracle, "teardown"):
         oracle.teardown(ctx)
     d = ctx.dump()
